@@ -24,7 +24,7 @@ struct Case {
     epochs: i32,
     wseed: u32,
     dseed: u32,
-    schedules: Vec<(usize, u32)>, // (threads, delay-plan seed; 0 = no delays)
+    schedules: Vec<(usize, u32, bool)>, // (threads, delay-plan seed; 0 = no delays, the pool first serves a decoy network)
     /// skip connections between the trailing dense layers (a shared source makes the backward pass sum several skip gradients)
     connects: Vec<(usize, usize)>,
     /// scale of the evaluation inputs (1e-39: intermediate values become subnormal)
@@ -90,9 +90,9 @@ fn decode(tape: &[u32], tier: Tier) -> Case {
     for i in 0..nsched {
         let th = THREADS[1 + t.pick(THREADS.len() - 1)];
         let delay = if i % 2 == 1 { t.raw() | 1 } else { 0 };
-        schedules.push((th, delay));
+        schedules.push((th, delay, i % 3 == 2));
     }
-    schedules.push((1, 0)); // a repetition of the baseline itself (fresh network, same schedule)
+    schedules.push((1, 0, false)); // a repetition of the baseline itself (fresh network, same schedule)
     let eval_scale: f32 = if t.chance(1, 5) { 1e-39 } else { 1.0 };
     if eval_scale != 1.0 {
         // subnormal values must reach the outputs: no biases, no sigmoid / soft-max
@@ -140,7 +140,7 @@ struct Outcome {
     batch: Vec<Vec<u32>>,
 }
 
-fn run_once(case: &Case, threads: usize, delay_seed: u32, data: &(Vec<Tensor>, Vec<Tensor>, Vec<Tensor>, Vec<Tensor>)) -> Result<Outcome, String> {
+fn run_once(case: &Case, threads: usize, delay_seed: u32, decoy: bool, data: &(Vec<Tensor>, Vec<Tensor>, Vec<Tensor>, Vec<Tensor>)) -> Result<Outcome, String> {
     let spec = &case.spec;
     let mut net = build(spec)?;
     for (a, b) in &case.connects {
@@ -162,6 +162,29 @@ fn run_once(case: &Case, threads: usize, delay_seed: u32, data: &(Vec<Tensor>, V
         (0..37).map(|_| if m.below(3) == 0 { m.below(200) as u32 } else { 0 }).collect()
     };
     let pool = rayon::ThreadPoolBuilder::new().num_threads(threads).build().map_err(|e| e.to_string())?;
+    if decoy {
+        // The pool's threads first serve another network of the same family: same layer list and the same shapes
+        // from the first layer's output on, but other weights, other inputs and a first layer whose input is two
+        // pixels larger / smaller with its padding reduced / increased by one (same padded extent, same output).
+        // Nothing a thread keeps from earlier work may influence the run that follows.
+        if let Some((dspec, dconn)) = decoy_of(case) {
+            if let Ok(mut dn) = build(&dspec) {
+                let mut ok = true;
+                for (a, b) in &dconn {
+                    let (a, b) = (*a, *b);
+                    ok &= catch(std::panic::AssertUnwindSafe(|| dn.connect(a, b))).is_ok();
+                }
+                if ok {
+                    let dps = seeded_params(&dn, &dspec, case.wseed ^ 0x5eed, 1, 0.8);
+                    apply_params(&mut dn, &dps);
+                    let n_in = count(&dspec.input);
+                    let xs: Vec<Tensor> = (0..(8 * threads).min(200)).map(|i| tens::build(&dspec.input, &payload(case.dseed ^ (0xd0c0 + i as u32 * 31), 1, n_in, 1.0))).collect();
+                    let xr: Vec<&Tensor> = xs.iter().collect();
+                    let _ = pool.install(|| catch(std::panic::AssertUnwindSafe(|| dn.predict_batch(&xr))));
+                }
+            }
+        }
+    }
     neurons::verif::set_delay_plan(plan);
     let r = pool.install(|| {
         catch(std::panic::AssertUnwindSafe(|| {
@@ -182,6 +205,33 @@ fn run_once(case: &Case, threads: usize, delay_seed: u32, data: &(Vec<Tensor>, V
         validate: (v.0.to_bits(), v.1.to_bits()),
         batch: pb.iter().map(|t| bits(&tens::flat(t))).collect(),
     })
+}
+
+/// The decoy network of `run_once` (None when the first layer cannot be shifted).
+fn decoy_of(case: &Case) -> Option<(NetSpec, Vec<(usize, usize)>)> {
+    let mut spec = case.spec.clone();
+    if let LayerSpec::Conv { cfg, .. } = &mut spec.layers[0] {
+        let shift = |n: &mut usize, p: &mut usize| {
+            if *p >= 1 {
+                *n += 2;
+                *p -= 1;
+            } else if *n >= 3 {
+                *n -= 2;
+                *p += 1;
+            }
+        };
+        let (mut h, mut w) = (spec.input[1], spec.input[2]);
+        shift(&mut h, &mut cfg.padding.0);
+        shift(&mut w, &mut cfg.padding.1);
+        spec.input = vec![spec.input[0], h, w];
+    }
+    // the shapes after the first layer must be unchanged
+    let a = model_out(&case.spec.input, &case.spec.layers[0])?;
+    let b = model_out(&spec.input, &spec.layers[0])?;
+    if a != b {
+        return None;
+    }
+    Some((spec, case.connects.clone()))
 }
 
 fn first_difference(a: &Outcome, b: &Outcome) -> String {
@@ -241,7 +291,7 @@ fn check(case: &Case, ev: &mut CaseEv) -> CheckResult {
         ev.class("skip connections with a shared source");
     }
     let data = (tx, ty, ex, ey);
-    let base = match run_once(case, 1, 0, &data) {
+    let base = match run_once(case, 1, 0, false, &data) {
         Ok(b) => b,
         Err(p) => {
             if p.contains("Loss is NaN") {
@@ -259,15 +309,18 @@ fn check(case: &Case, ev: &mut CaseEv) -> CheckResult {
         ev.discard = Some("non-finite losses");
         return Ok(());
     }
-    for (threads, delay) in &case.schedules {
-        let o = match run_once(case, *threads, *delay, &data) {
+    for (threads, delay, decoy) in &case.schedules {
+        if *decoy {
+            ev.class("schedule: pool served a decoy network first");
+        }
+        let o = match run_once(case, *threads, *delay, *decoy, &data) {
             Ok(o) => o,
             Err(p) => fail!("run with {} threads panicked although the 1-thread run did not: {}", threads, p),
         };
         if o != base {
             let msg = format!(
                 "run with {} worker threads{} differs from the 1-thread run of a freshly built identical network: {}; batch {}, {} training / {} evaluation samples, {} epochs, optimizer {}; spec {:?}",
-                threads, if *delay != 0 { " and injected delays" } else { "" }, first_difference(&base, &o), case.batch, case.ntrain, case.neval, case.epochs, case.kind.name(), spec
+                threads, if *delay != 0 { " and injected delays" } else if *decoy { " (whose threads served another network first)" } else { "" }, first_difference(&base, &o), case.batch, case.ntrain, case.neval, case.epochs, case.kind.name(), spec
             );
             if fb_inskip3 {
                 return Err(Fail::known(msg, "feedback_backward_hashmap_order"));
@@ -275,7 +328,7 @@ fn check(case: &Case, ev: &mut CaseEv) -> CheckResult {
             fail!("{}", msg);
         }
     }
-    ev.nontrivial = case.batch >= 4 && case.neval > 64 && case.schedules.iter().any(|(t, _)| *t >= 2);
+    ev.nontrivial = case.batch >= 4 && case.neval > 64 && case.schedules.iter().any(|(t, _, _)| *t >= 2);
     ev.set_sig(&(spec, case.batch, case.ntrain, case.neval, &case.schedules));
     ev.units = case.schedules.len() as u64;
     Ok(())
@@ -297,7 +350,7 @@ impl Prop for C05 {
         1 // the delay plan is process-global; schedules are run one after the other
     }
     fn rule(&self) -> String {
-        "tape-decoded network containing a convolution, optionally a spatial feedback block, a deconvolution and a max-pool, a dense layer, optionally a flat feedback block (with and without skips, 2-4 loops), optionally two more dense layers with skip connections from a shared source, and a final dense layer (linear / sigmoid / soft-max); evaluation inputs optionally scaled to 1e-39 (subnormal intermediates); dropout on some layers; one of five optimizers; batch 2..12 (thorough 32), 8..40 (120) training samples, 65..260 (400) evaluation inputs, in one case of three 261..700 (1200) (more than one 64-chunk), non-dyadic data, 1-3 epochs with validation data. Schedules per case: 5 (thorough 10) draws from dedicated rayon pools with {2, 3, 5, 8, 16, 32, 48} threads, every second one with a tape-derived delay plan (0-200 us sleeps at the per-sample / per-prediction hooks), plus a repetition of the 1-thread run. Oracle: to_bits equality of train / validation loss vectors, accuracies, all final weights, validate() and predict_batch() in order against the 1-thread run; every run builds a fresh network. Non-trivial: batch >= 4, > 64 evaluation inputs, >= 2 threads. Distinct = (architecture, batch, sizes, schedule list).".into()
+        "tape-decoded network containing a convolution, optionally a spatial feedback block, a deconvolution and a max-pool, a dense layer, optionally a flat feedback block (with and without skips, 2-4 loops), optionally two more dense layers with skip connections from a shared source, and a final dense layer (linear / sigmoid / soft-max); evaluation inputs optionally scaled to 1e-39 (subnormal intermediates); dropout on some layers; one of five optimizers; batch 2..12 (thorough 32), 8..40 (120) training samples, 65..260 (400) evaluation inputs, in one case of three 261..700 (1200) (more than one 64-chunk), non-dyadic data, 1-3 epochs with validation data. Schedules per case: 5 (thorough 10) draws from dedicated rayon pools with {2, 3, 5, 8, 16, 32, 48} threads, every second one with a tape-derived delay plan (0-200 us sleeps at the per-sample / per-prediction hooks), every third one on a pool whose threads first served a decoy network (same layer list and downstream shapes, other weights and inputs, first-layer geometry shifted by one padding step), plus a repetition of the 1-thread run. Oracle: to_bits equality of train / validation loss vectors, accuracies, all final weights, validate() and predict_batch() in order against the 1-thread run; every run builds a fresh network. Non-trivial: batch >= 4, > 64 evaluation inputs, >= 2 threads. Distinct = (architecture, batch, sizes, schedule list).".into()
     }
     fn assumptions(&self) -> Vec<String> {
         vec!["rayon's work-stealing decisions are not owned by the harness: thread counts, repetitions and injected delays are explored, not interleavings; a pass means no dependence was observed".into()]
@@ -307,7 +360,7 @@ impl Prop for C05 {
     }
     fn describe(&self, tape: &[u32]) -> Value {
         let c = decode(tape, self.0);
-        json!({"spec": format!("{:?}", c.spec), "optimizer": format!("{:?}", c.kind), "batch": c.batch, "ntrain": c.ntrain, "neval": c.neval, "epochs": c.epochs, "schedules(threads, delay seed)": c.schedules})
+        json!({"spec": format!("{:?}", c.spec), "optimizer": format!("{:?}", c.kind), "batch": c.batch, "ntrain": c.ntrain, "neval": c.neval, "epochs": c.epochs, "schedules(threads, delay seed, decoy first)": c.schedules})
     }
 }
 
